@@ -692,7 +692,8 @@ class BrownianInterval(brownian_base.BaseBrownian, _Interval):
         if self._cache_size is None:  # cache_size=None corresponds to infinite cache.
             cache_size = 100
         else:
-            cache_size = min(self._cache_size, 100)
+            # cache_size=0 would make piece_length zero, and the subdivision below would never stop.
+            cache_size = max(1, min(self._cache_size, 100))
 
         self._tree_dt = min(self._tree_dt, dt)
         # Rationale: We are prepared to hold `cache_size` many things in memory, so when making steps of size `dt`
